@@ -337,7 +337,17 @@ def execute(world_cls, rseed: int, tier: str, known: KnownFindings | None, cfg: 
                     res.trace.append(step)
                     outcome = _apply_bounded(world, step)
                     _after_step(world, res, dig, sig, actors, step.get("seq", 0), step, outcome)
-            world.finish()
+            try:
+                world.finish()
+            except (Violation, HarnessError):
+                raise
+            except Exception as e:
+                # the end-of-run checks only look at what completed operations left behind: an exception out of library
+                # code there (a MemoryError over an absurd span read back from a completed file included) is a verdict
+                if not (world.NET_ALL or _through_library(e)):
+                    raise
+                strip_traceback(e)
+                raise Violation("crash", "finish", "unguarded", type(e).__name__, f"{type(e).__name__}: {str(e)[:160]}") from None
         except Violation as v:
             res.violation = v
     finally:
